@@ -203,7 +203,7 @@ let do_schema name sx =
   let p = (match mx_gen_all s with GOk p -> Some p | GError _ -> None) in
   Hashtbl.replace schemas name (s, p);
   (match mx_gen_all s with GOk _ -> "ok" | GError r -> "generror:" ^ string_of_int (let rec n = function O -> 0 | S k -> 1 + n k in n r))
-  ^ "\ttdec=" ^ (if mx_tdec_applies s then "yes" else "no")
+  ^ "\ttdec=" ^ (if mx_tdec_applies s then "yes" else "no") ^ "\trt=" ^ (if mx_rt_applies s then "yes" else "no")
 
 (* msg: typeref gotype val implbytes flags detail refbytes
    -> pico=<model Marshal bytes|PANIC> ref=<ref_encode (norm v)> rt=<model unmarshal of model bytes> refdec=<ref_decode of model bytes> norm=<norm v> *)
@@ -225,7 +225,8 @@ let do_msg tref vs =
           let rd = (match mx_ref_decode s idx b zero with Some m -> string_of_val m | None -> "reject") in
           (hex_of_bytes b, rt, rd)) in
     let wf = if mx_msg_ok progs idx v then "1" else "0" in
-    String.concat "\t" ["pico=" ^ pico_s; "ref=" ^ hex_of_bytes refb; "rt=" ^ rt_s; "refdec=" ^ refdec_s; "norm=" ^ string_of_val nv; "wfmsg=" ^ wf]
+    let rtok = if mx_rt_applies s && mx_rt_ok s idx v then "1" else "0" in
+    String.concat "\t" ["pico=" ^ pico_s; "ref=" ^ hex_of_bytes refb; "rt=" ^ rt_s; "refdec=" ^ refdec_s; "norm=" ^ string_of_val nv; "wfmsg=" ^ wf; "rtok=" ^ rtok]
 
 (* dec: typeref gotype hexdata ... -> st=<ok|err:f:cls> val=<..> ref=<val|reject> *)
 let do_dec tref hx =
